@@ -71,12 +71,17 @@ def tensor_sizes(ir: IntegralIR | ExpressionIR) -> KernelTensorSizes:
 def _(ir: IntegralIR) -> KernelTensorSizes:
     """Compute tensor sizes of integral IR input data."""
     A = np.prod(ir.expression.tensor_shape, dtype=int)
-    w = sum(coeff.ufl_element().dim for coeff in ir.expression.coefficient_offsets.keys())
+    # Interior facet kernels get the data of both cells: w[coefficient][restriction][dof]
+    # and coordinate_dofs[restriction][num_dofs][3], see ufcx.h
+    width = 2 if ir.expression.integral_type == "interior_facet" else 1
+    w = width * sum(
+        coeff.ufl_element().dim for coeff in ir.expression.coefficient_offsets.keys()
+    )
     c = sum(
         np.prod(constant.ufl_shape, dtype=int)
         for constant in ir.expression.original_constant_offsets.keys()
     )
-    coords = ir.expression.number_coordinate_dofs * 3
+    coords = width * ir.expression.number_coordinate_dofs * 3
     local_index = 2  # TODO: this is just an upper bound, harmful?
     permutation = 2 if ir.expression.needs_facet_permutations else 0
 
